@@ -298,8 +298,11 @@ func TestVerifGME(t *testing.T) {
 			used = append(used, name)
 		}
 		def := used[rng.Intn(len(used))]
-		if rng.Intn(12) == 0 {
+		switch rng.Intn(16) {
+		case 0:
 			def = "nosuch"
+		case 1:
+			def = "" // no default named at all
 		}
 		fail := ""
 		if rng.Intn(6) == 0 {
